@@ -123,61 +123,68 @@ def rule_line(chk, ip):
         ops = [(a["op"], F.lit(a["r"])) for a in F.exprs(inc["thir"], "AssignOp")]
         ok = ops == [("AddAssign", ("int", 1))] or ops == [("Add", ("int", 1))]
         chk.ob("C14.line/%s-increment" % ty, ok, "%s::increment adds 1" % ty if ok else "%s::increment does %s" % (ty, ops), where(inc))
+    # SourceManager evaluated on a small model (finite-map reader with a modelled Vec / String): three files are added
+    # with add_file, then every location of the reserved ranges is decoded by both decoders and compared with the
+    # reference (file, line = 1 + newlines before, column = 1 + bytes since the last newline; file_size + 1 slots per file)
+    new = f.fn("new", "rssl_text", self_ty="SourceManager")
+    add = f.fn("add_file", "rssl_text")
     gfl = chk.anchor("C14.anchor/get_file_location", f.fn("get_file_location", "rssl_text"), "SourceManager::get_file_location")
-    if gfl:
-        ok_nl = ok_other = False
-        for m in F.exprs(gfl["thir"], "Match"):
-            for arm in m["arms"]:
-                alt = F.pat_alternatives(arm["pat"])[0]
-                calls = [(short(c.get("fn") or ""), (F.leftmost_var(c["args"][0]) or {}).get("name") if c.get("args") else None) for c in F.exprs(arm["body"], "Call") if short(c.get("fn") or "") in ("increment", "first")]
-                asg = [(F.strip(a["l"]).get("name"), short(F.strip(a["r"]).get("fn") or "")) for a in F.exprs(arm["body"], "Assign")]
-                if alt.get("k") == "Const" and alt.get("v") == 10:
-                    ok_nl = ("increment", "line") in calls and ("column", "first") in asg and ("increment", "column") not in calls
-                elif F.pat_is_catchall(alt):
-                    ok_other = [c for c in calls if c[0] == "increment"] == [("increment", "column")]
-        chk.ob("C14.line/newline", ok_nl, "'\\n' -> line += 1, column = first" if ok_nl else "a newline byte no longer advances the line and resets the column", where(gfl))
-        chk.ob("C14.line/other-byte", ok_other, "any other byte -> column += 1" if ok_other else "a non-newline byte no longer advances exactly the column", where(gfl))
-        # the prefix scanned is contents[..source_offset]
-        rng = [a for a in F.exprs(gfl["thir"], "Adt") if short(a["adt"]) == "RangeTo"]
-        takes = [c for c in F.exprs(gfl["thir"], "Call") if short(c.get("fn") or "") == "take"]
-        okp = len(rng) + len(takes) == 1
-        chk.ob("C14.line/scans-prefix", okp, "counts the bytes before the location" if okp else "get_file_location no longer scans exactly the bytes before the offset (contents[..offset] / take(offset))", where(gfl))
-    # a location belongs to the file whose reserved range [base, base + file_size + 1) contains it: both decoders select
-    # the file with the same strict test `location < base + file_size + 1`
-    tests = {}
-    for name in ("get_file_offset_from_source_location", "get_file_location"):
-        fn = f.fn(name, "rssl_text")
-        if not fn:
-            continue
-        found = []
-        for (p_, it_, body_, node_) in F.for_loops(fn["thir"]):
-            if body_ is None:
-                continue
-            for iff in F.exprs(body_, "If"):
-                c = F.strip(iff["cond"])
-                if c.get("k") == "Binary" and c["op"] in ("Lt", "Le", "Gt", "Ge") and any(x.get("k") == "Field" and x.get("name") == "0" for x in F.walk(c["l"])):
-                    found.append(c["op"])
-        tests[name] = found
-        okt = found == ["Lt"]
-        chk.ob("C14.line/file-range/" + name, okt, "file selected by `location < end of its reserved range`" if okt else
-               "%s selects the file with %s instead of a single strict `<` against the end of the file's reserved range: a location at the first byte of the next file is attributed to the previous file (position past its end)"
-               % (name, found or "no range test"), where(fn))
-    # file_size + 1 in add_file and both decoders
-    n_ok = 0
-    for name in ("add_file", "get_file_offset_from_source_location", "get_file_location"):
-        fn = f.fn(name, "rssl_text")
-        if not fn:
-            chk.ob("C14.line/reserve/" + name, False, "anchor-missing", "text/src/location.rs")
-            continue
-        ok = False
-        for b in F.exprs(fn["thir"], "Binary"):
-            if b["op"] == "Add" and F.lit(b["r"]) == ("int", 1):
-                l = F.strip(b["l"])
-                names = [x["name"] for x in F.exprs(l, "Field")] + [v.get("name") for v in F.exprs(l, "Var")]
-                if "file_size" in names:
-                    ok = True
-        chk.ob("C14.line/reserve/" + name, ok, "reserves file_size + 1 locations" if ok else
-               "%s no longer uses `file_size + 1` (the three location computations must agree)" % name, where(fn))
+    gfo = chk.anchor("C14.anchor/get_file_offset_from_source_location", f.fn("get_file_offset_from_source_location", "rssl_text"), "get_file_offset_from_source_location")
+    if chk.anchor("C14.anchor/SourceManager", new and add and gfl and gfo, "SourceManager::new / add_file"):
+        ipl = I.Interp(f, max_depth=8)
+        files = [("a.rssl", "ab\ncd"), ("empty.rssl", ""), ("c.rssl", "x\n\ny\n")]
+        try:
+            sm = ipl.apply(new, [])
+            ids = [ipl.apply(add, [sm, I.Enum("FileName", None, {"0": nm}), c]) for nm, c in files]
+            readable = True
+        except I.Unknown as e:
+            readable = False
+            chk.ob("C14.line/reserve/add_file", False, "add_file is not readable: %s" % e, where(add))
+        if readable:
+            bases = []
+            nxt = 0
+            for nm, c in files:
+                bases.append(nxt)
+                nxt += len(c) + 1
+            got_bases = [sf.fields.get("base_location").fields.get("0") if isinstance(sf, I.Enum) and isinstance(sf.fields.get("base_location"), I.Enum) else None for sf in sm.fields.get("files", [])]
+            ok = got_bases == bases and [i.fields.get("0") if isinstance(i, I.Enum) else i for i in ids] == [0, 1, 2]
+            chk.ob("C14.line/reserve/add_file", ok, "every file reserves file_size + 1 locations after the previous one (bases %s)" % bases if ok else
+                   "add_file places files of sizes %s at base locations %s, must be %s (file_size + 1 slots each: the end-of-file position belongs to the file)" % ([len(c) for _, c in files], got_bases, bases), where(add))
+            bad_l, bad_o = [], []
+            n_loc = 0
+            for fi, (nm, c) in enumerate(files):
+                for o in range(len(c) + 1):
+                    n_loc += 1
+                    loc = I.Enum("SourceLocation", None, {"0": bases[fi] + o})
+                    before = c[:o]
+                    want = (nm, 1 + before.count("\n"), 1 + len(before) - (before.rfind("\n") + 1))
+                    try:
+                        r = ipl.apply(gfl, [sm, loc])
+                        g = r.fields if isinstance(r, I.Enum) and r.variant == "Known" else None
+                        got = (g["0"].fields.get("0"), g["1"].fields.get("0"), g["2"].fields.get("0")) if g else (r.variant if isinstance(r, I.Enum) else repr(r))
+                    except I.Unknown as e:
+                        got = "unreadable / aborts (%s)" % e
+                    if got != want:
+                        bad_l.append((nm, o, got, want))
+                    try:
+                        r = ipl.apply(gfo, [sm, loc])
+                        tup = r.fields.get("0") if isinstance(r, I.Enum) and r.variant == "Some" else None
+                        got2 = (tup[0].fields.get("0"), tup[1].fields.get("0")) if tup else (r.variant if isinstance(r, I.Enum) else repr(r))
+                    except I.Unknown as e:
+                        got2 = "unreadable / aborts (%s)" % e
+                    if got2 != (fi, o):
+                        bad_o.append((nm, o, got2, (fi, o)))
+            for key, fn_, bad in (("get_file_location", gfl, bad_l), ("get_file_offset_from_source_location", gfo, bad_o)):
+                chk.ob("C14.line/file-range/" + key, not bad, "%d locations of 3 files decode to the right file and position" % n_loc if not bad else
+                       "%s: byte %d of %s decodes to %s, must be %s (%d of %d locations wrong): a diagnostic names the wrong file, line or column"
+                       % ((key,) + (bad[0][1], bad[0][0], bad[0][2], bad[0][3]) + (len(bad), n_loc)), where(fn_), sample={"locations": n_loc, "wrong": len(bad)})
+            # past the last file: unknown
+            try:
+                r = ipl.apply(gfl, [sm, I.Enum("SourceLocation", None, {"0": nxt})])
+                ok_u = isinstance(r, I.Enum) and r.variant == "Unknown"
+            except I.Unknown:
+                ok_u = False
+            chk.ob("C14.line/past-the-end", ok_u, "a location after the last file is Unknown" if ok_u else "a location after the last file is not reported as Unknown", where(gfl))
     wm = f.fn("write_message", "rssl_text")
     if chk.anchor("C14.anchor/write_message", wm, "MessagePrinter::write_message"):
         cfg = M.Cfg(wm)
